@@ -251,7 +251,11 @@ def build(f, d, E, dtype, layout):
     import xarray as xr
 
     N = E.shape[0]
-    data = np.asarray(E).astype(dtype)
+    data = np.asarray(E, dtype=float)
+    if np.dtype(dtype).kind in "iu":  # integer-stored spectra: the values in units of the smallest positive one
+        pos = data[data > 0]
+        data = np.rint(data / (pos.min() if pos.size else 1.0))
+    data = data.astype(dtype)
     sdims = ["freq"] + (["dir"] if d is not None else [])
     coords = {"freq": np.asarray(f, dtype=float).copy()}
     if d is not None:
@@ -339,7 +343,7 @@ def eval_interp(f, d, E, tf, td, m0, api="interp", layout="site", dtype="float64
     if da is None:
         da = build(f, d, E, dtype, layout)
     Eu = np.asarray(da.values, dtype=np.float64).reshape(E.shape)
-    tol = TOL_F8 if np.dtype(dtype) == np.float64 else TOL_F4
+    tol = TOL_F8 if (np.dtype(dtype) == np.float64 or np.dtype(dtype).kind in "iu") else TOL_F4
     bad = []
     info = {"ood": 0, "checked": 0}
     try:
@@ -451,7 +455,7 @@ def eval_rotate(f, d, E, angle, src_kind, layout="site", dtype="float64", da=Non
     if da is None:
         da = build(f, d, E, dtype, layout)
     Eu = np.asarray(da.values, dtype=np.float64).reshape(E.shape)
-    tol = TOL_F8 if np.dtype(dtype) == np.float64 else TOL_F4
+    tol = TOL_F8 if (np.dtype(dtype) == np.float64 or np.dtype(dtype).kind in "iu") else TOL_F4
     bad = []
     info = {"ood": 0, "checked": N}
     try:
@@ -778,7 +782,7 @@ def work_items(tier, seed):
                 continue
             name = "%s/%s" % (fname, dname)
             base = dict(f=f, d=dst, idx=idx, alpha=alpha, family="structured1", src_kind=kind, name=name, tier=tier)
-            for layout, dtype in (("time_site", "float64"), ("site", "float32"), ("time_site", "float32")):
+            for layout, dtype in (("time_site", "float64"), ("site", "float32"), ("time_site", "float32"), ("site", "int64")):
                 items.append(dict(base, runner="interp", part="interp/api-layout-dtype", apis=APIS, layout=layout, dtype=dtype,
                                   tf_names=["none", "same", "both"] if quick else ["none", "same", "finer", "both", "all-above"],
                                   td_names=["none", "same", "seam"] if quick else ["none", "same", "shifted", "seam", "desc"]))
